@@ -162,16 +162,16 @@ func Parse(b []byte) (message util.Message, err error) {
 		message = NewPortStatus()
 		err = message.UnmarshalBinary(b)
 	case Type_PacketOut:
-		break
+		err = errors.New("Parsing of this message type is not supported.")
 	case Type_FlowMod:
 		message = NewFlowMod()
 		err = message.UnmarshalBinary(b)
 	case Type_GroupMod:
-		break
+		err = errors.New("Parsing of this message type is not supported.")
 	case Type_PortMod:
-		break
+		err = errors.New("Parsing of this message type is not supported.")
 	case Type_TableMod:
-		break
+		err = errors.New("Parsing of this message type is not supported.")
 	case Type_BarrierRequest:
 		message = new(common.Header)
 		err = message.UnmarshalBinary(b)
@@ -179,9 +179,9 @@ func Parse(b []byte) (message util.Message, err error) {
 		message = new(common.Header)
 		err = message.UnmarshalBinary(b)
 	case Type_QueueGetConfigRequest:
-		break
+		err = errors.New("Parsing of this message type is not supported.")
 	case Type_QueueGetConfigReply:
-		break
+		err = errors.New("Parsing of this message type is not supported.")
 	case Type_MultiPartRequest:
 		message = new(MultipartRequest)
 		err = message.UnmarshalBinary(b)
